@@ -48,7 +48,8 @@ struct NodeRes {
     kind: Kind,
     /// node values after each successful prefix step (composite ops)
     partial_nodes: Vec<Val>,
-    known: Option<&'static str>,
+    /// (class, exact number of bytes the code grows the buffer by before the initialiser fails)
+    known: Option<(&'static str, usize)>,
 }
 fn done(out: MOut) -> NodeRes {
     NodeRes { out, kind: Kind::Atomic, partial_nodes: vec![], known: None }
@@ -179,7 +180,7 @@ fn apply_node(shape: &Shape, v: &mut Val, op: &Op) -> NodeRes {
         // ---------------------------------------------------------------- Set
         (Shape::Set(e, lw), Val::Seq(es), op) => {
             let max = max_count(*lw);
-            let mut insert = |es: &mut Vec<Vec<u8>>, b: &Vec<u8>| -> Result<bool, &'static str> {
+            let insert = |es: &mut Vec<Vec<u8>>, b: &Vec<u8>| -> Result<bool, &'static str> {
                 match find_key(es.iter().map(|x| le_num(x)), le_num(b)) {
                     Ok(_) => Ok(false),
                     Err(pos) => {
@@ -240,7 +241,7 @@ fn apply_node(shape: &Shape, v: &mut Val, op: &Op) -> NodeRes {
         // ---------------------------------------------------------------- Map
         (Shape::Map(kw, vs, lw), Val::MapV(kvs), op) => {
             let max = max_count(*lw);
-            let mut insert = |kvs: &mut Vec<(Vec<u8>, Vec<u8>)>, k: &Vec<u8>, b: &Vec<u8>| -> Result<Option<Vec<u8>>, &'static str> {
+            let insert = |kvs: &mut Vec<(Vec<u8>, Vec<u8>)>, k: &Vec<u8>, b: &Vec<u8>| -> Result<Option<Vec<u8>>, &'static str> {
                 match find_key(kvs.iter().map(|x| le_num(&x.0)), le_num(k)) {
                     Ok(pos) => Ok(Some(std::mem::replace(&mut kvs[pos].1, b.clone()))),
                     Err(pos) => {
@@ -346,7 +347,7 @@ fn apply_node(shape: &Shape, v: &mut Val, op: &Op) -> NodeRes {
                 if *i > vs.len() {
                     return err(IOOB);
                 }
-                if *n > (1 << 22) {
+                if *n > 4096 {
                     return err(REALLOC);
                 }
                 for _ in 0..*n {
@@ -367,7 +368,7 @@ fn apply_node(shape: &Shape, v: &mut Val, op: &Op) -> NodeRes {
                         out: MOut::Err(TOPRIM),
                         kind: Kind::Atomic,
                         partial_nodes: vec![],
-                        known: Some("ulist_insert_init_fails_after_resize"),
+                        known: Some(("ulist_insert_init_fails_after_resize", lw + bs.len() * ee.fixed_size() + 4)),
                     };
                 }
                 vs.insert(*i, Val::Seq(bs.clone()));
@@ -437,10 +438,12 @@ fn apply_node(shape: &Shape, v: &mut Val, op: &Op) -> NodeRes {
                         out: MOut::Err(TOPRIM),
                         kind: Kind::Atomic,
                         partial_nodes: vec![],
-                        known: Some(if found.is_ok() {
-                            "set_data_inner_init_fails_after_resize"
-                        } else {
-                            "ulist_insert_init_fails_after_resize"
+                        known: Some(match found {
+                            Ok(pos) => {
+                                let cur = kvs[pos].1.size(e);
+                                ("set_data_inner_init_fails_after_resize", (lw + bs.len() * ee.fixed_size()).saturating_sub(cur))
+                            }
+                            Err(_) => ("ulist_insert_init_fails_after_resize", lw + bs.len() * ee.fixed_size() + 4 + kw),
                         }),
                     };
                 }
@@ -520,18 +523,17 @@ pub fn apply(shape: &Shape, root: &Val, abs: &[Step], op: &Op, cap: usize) -> MR
                 return MRes { out: MOut::Err(REALLOC), new: root.clone(), kind: nr.kind, partials, known: None };
             }
             let _ = before_node;
-            MRes { out: MOut::Ok(ret), new, kind: nr.kind, partials, known: nr.known }
+            MRes { out: MOut::Ok(ret), new, kind: nr.kind, partials, known: None }
         }
         MOut::Err(c) => {
             // known "init fails after resize" classes only fire if the resize itself is possible
-            let mut known = nr.known;
+            let mut known = None;
             let mut c = c;
-            if let (Some(_), Op::UInsertArr(_, bs) | Op::UMInsertArr(_, bs)) = (known, op) {
-                // growth = (lw + N) [+ offset entry]; approximated by: would the grown buffer fit?
-                let grow_at_least = bs.len();
-                if old_size + grow_at_least > cap {
-                    known = None;
+            if let Some((class, growth)) = nr.known {
+                if old_size + growth > cap {
                     c = REALLOC;
+                } else {
+                    known = Some(class);
                 }
             }
             MRes { out: MOut::Err(c), new: root.clone(), kind: nr.kind, partials, known }
